@@ -108,11 +108,13 @@ def _uses(ob, name):
 
 
 Z3_CLI = os.environ.get("PYVC_Z3", "z3-new")
-SCHEDULE = (("rel2", 0, 4), ("all", 0, 6), ("rel1", 7, 5), ("all", 0, 20), ("rel3", 7, 8), ("all", 42, 15), ("rel2", 99, 12), ("all", 0, 60))
+SCHEDULE = (("rel2", 0, 4), ("all", 0, 6), ("rel1", 7, 5))       # first pass: everything in parallel, short budgets
 # (hypothesis selection, random seed, hard wall-clock seconds); "relN" = relevance closure of depth N (sound weakening)
 
 
-RETRY_SCHEDULE = (("rel2", 3, 30), ("all", 3, 60), ("rel1", 5, 30), ("rel3", 5, 45), ("all", 11, 120))
+# second pass: only what is still undecided (at most FAIL_CAP obligations per clause), few at a time, long budgets
+RETRY_SCHEDULE = (("all", 0, 20), ("rel3", 7, 8), ("all", 42, 15), ("rel2", 99, 12), ("all", 3, 45))
+FALSE_GOAL_SCHEDULE = (("all", 0, 4),)      # `pc => False` (an exceptional edge that must be unreachable): quick, a refutation needs a model anyway
 
 
 def _run(args):
@@ -122,6 +124,8 @@ def _run(args):
     sched = SCHEDULE if len(seeds) > 1 else (("all", 0, max(1, timeout_ms // 1000)),)
     if seeds == "retry":
         sched = RETRY_SCHEDULE
+    if seeds == "false-goal":
+        sched = FALSE_GOAL_SCHEDULE
     paths = {}
     for k, smt in smts.items():
         fd, pth = tempfile.mkstemp(suffix=".smt2", prefix="pyvc_")
@@ -180,6 +184,7 @@ class Rec:
         self.smts = smts
         self._smt = (smts or {}).get("all", "")
         self.nhyps = len(ob.hyps)
+        self.false_goal = bool(z3.is_false(z3.simplify(ob.goal))) if smts is not None else False
 
     def key(self):
         return f"{self.func}::{self.kind}::{self.clause}"
@@ -204,6 +209,9 @@ def prepare(ob):
         extra += [sum_lemma_axiom(n) for n in lem if n != "POW_MONO"]
         if "SUM" not in smt:
             extra += sum_axioms_nonrecursive()
+    if "PICKLE" in smt or "VERIFIED_" in smt or "SHA256HEX" in smt:
+        from . import oslib
+        extra += oslib.axioms()
     if extra:
         smt = to_smt2(ob, extra)
     smts = {"all": smt}
@@ -213,29 +221,67 @@ def prepare(ob):
     return Rec(ob, smts)
 
 
+_FAILED_KEYS = {}
+FAIL_CAP = 2      # after this many undischarged obligations of one clause, further ones of that clause are not attempted
+
+
+def _run_capped(args):
+    idx, smts, timeout_ms, seeds, key = args
+    if key is not None and _FAILED_KEYS.get(key, 0) >= FAIL_CAP:
+        return idx, "unknown", "not attempted: the same clause already failed %d times in this run" % FAIL_CAP, 0.0, "skipped"
+    r = _run((idx, smts, timeout_ms, seeds))
+    if key is not None and r[1] != "unsat":
+        _FAILED_KEYS[key] = _FAILED_KEYS.get(key, 0) + 1
+    return r
+
+
 def discharge_records(recs, workers=None, timeout_ms=None):
     timeout_ms = timeout_ms or TIMEOUT_MS
     workers = workers or min(14, os.cpu_count() or 4)
+    _FAILED_KEYS.clear()
     todo = []
     for i, r in enumerate(recs):
         if r.status is not None:
             continue          # already decided (trivial, or decided by concrete execution)
         if r.kind.startswith("canary"):
-            todo.append((i, r.smts, 1500, (0,)))
+            todo.append((i, r.smts, 1500, (0,), None))
+        elif getattr(r, "false_goal", False):
+            todo.append((i, r.smts, timeout_ms, "false-goal", r.key()))
         else:
-            todo.append((i, r.smts, timeout_ms, (0, 7, 42)))
+            todo.append((i, r.smts, timeout_ms, (0, 7, 42), r.key()))
     if todo:
         from concurrent.futures import ThreadPoolExecutor
+        # round-robin over the clauses: the first tasks started belong to different clauses, so that a failing clause is
+        # recognised after its first obligations and the remaining ones of that clause are not attempted (FAIL_CAP)
+        groups = {}
+        for t in todo:
+            groups.setdefault(t[4], []).append(t)
+        order = []
+        while any(groups.values()):
+            for k in list(groups):
+                if groups[k]:
+                    order.append(groups[k].pop(0))
+        todo = order
         with ThreadPoolExecutor(max_workers=min(workers, len(todo))) as pool:
-            results = list(pool.map(_run, todo))
+            results = list(pool.map(_run_capped, todo))
         for idx, status, info, ms, backend in results:
             r = recs[idx]
             r.status, r.time_ms, r.backend, r.model = status, ms, backend, info
         # second chance for the undecided ones, without contention (verdicts must not flip under load)
         again = [(i, recs[i].smts, timeout_ms, "retry") for i, r in enumerate(recs)
-                 if r.status == "unknown" and not r.kind.startswith("canary")]
+                 if r.status == "unknown" and not r.kind.startswith("canary") and r.backend != "skipped"
+                 and not getattr(r, "false_goal", False)]
+        # retry at most a few per clause
+        per = {}
+        again2 = []
+        for a in again:
+            k = recs[a[0]].key()
+            per[k] = per.get(k, 0) + 1
+            if per[k] <= FAIL_CAP:
+                again2.append(a)
+        again = again2
         if again:
-            with ThreadPoolExecutor(max_workers=min(4, len(again))) as pool:
+            with ThreadPoolExecutor(max_workers=min(8, len(again))) as pool:
                 results = list(pool.map(_run, again))
             for idx, status, info, ms, backend in results:
                 r = recs[idx]
@@ -246,72 +292,10 @@ def discharge_records(recs, workers=None, timeout_ms=None):
 
 
 def discharge(obls, workers=None, timeout_ms=None, second_backend=False):
-    """sets ob.status in {'unsat','sat','unknown','trivial','error'}"""
-    timeout_ms = timeout_ms or TIMEOUT_MS
-    workers = workers or min(14, os.cpu_count() or 4)
-    todo = []
-    pax, sax = None, None
-    for i, ob in enumerate(obls):
-        if ob.status == "trivial":
-            ob.time_ms = 0.0
-            ob.backend = "simplifier"
-            continue
-        g = z3.simplify(ob.goal)
-        if z3.is_true(g):
-            ob.status = "trivial"
-            ob.time_ms = 0.0
-            ob.backend = "simplifier"
-            continue
-        smt = to_smt2(ob)
-        extra = []
-        if "POW" in smt:
-            if "POW_MONO" in (getattr(ob, "lemmas", None) or []):
-                extra += pow_axioms(mono=True)
-            else:
-                pax = pax or pow_axioms()
-                extra += pax
-        if "SUM" in smt:
-            if ob.kind == "lemma":
-                pass                      # lemma obligations carry their own (recursive) axioms
-            else:
-                sax = sax or sum_axioms_nonrecursive()
-                extra += sax
-        lem = getattr(ob, "lemmas", None)
-        if lem:
-            from .lemmas import sum_lemma_axiom
-            extra += [sum_lemma_axiom(n) for n in lem if n != "POW_MONO"]
-            if "SUM" not in smt:
-                sax = sax or sum_axioms_nonrecursive()
-                extra += sax
-        if extra:
-            smt = to_smt2(ob, extra)
-        ob._smt = smt
-        if ob.kind.startswith("canary"):
-            todo.append((i, {"all": smt}, 1500, (0,)))
-        else:
-            smts = {"all": smt}
-            if len(ob.hyps) > 12 and ob.kind != "lemma":
-                for d in (1, 2, 3):
-                    smts[f"rel{d}"] = to_smt2(ob, extra, hyps=relevant_hyps(ob, d))
-            todo.append((i, smts, timeout_ms, (0, 7, 42)))
-    if todo:
-        if workers > 1 and len(todo) > 1:
-            from concurrent.futures import ThreadPoolExecutor
-            with ThreadPoolExecutor(max_workers=min(workers, len(todo))) as pool:
-                results = list(pool.map(_run, todo))
-        else:
-            results = [_run(t) for t in todo]
-        for idx, status, info, ms, backend in results:
-            ob = obls[idx]
-            ob.status = status
-            ob.time_ms = ms
-            ob.backend = backend
-            ob.model = info
-    if second_backend:
-        for ob in obls:
-            if ob.status == "unknown" and hasattr(ob, "_smt"):
-                r = _cvc5(ob._smt)
-                if r == "unsat":
-                    ob.status = "unsat"
-                    ob.backend = "cvc5-1.0.3"
+    """z3 obligations -> statuses (developer tools; the check CLI prepares records in the generating process)"""
+    recs = [prepare(o) for o in obls]
+    discharge_records(recs, workers=workers, timeout_ms=timeout_ms)
+    for o, r in zip(obls, recs):
+        o.status, o.time_ms, o.backend, o.model = r.status, r.time_ms, r.backend, r.model
+        o._smt = r._smt
     return obls
